@@ -18,7 +18,7 @@ PASS_THROUGH = (
 
 class Gate:
     """one condition an accept site is control dependent on."""
-    __slots__ = ('kind', 'what', 'operands', 'fn', 'block', 'line', 'callee', 'args', 'edge', 'const_ops')
+    __slots__ = ('kind', 'what', 'operands', 'fn', 'block', 'line', 'callee', 'args', 'edge', 'const_ops', 'truth', 'negated')
 
     def __init__(self, kind, what, operands, fn, block, line, callee=None, args=None, edge=None, const_ops=None):
         self.kind = kind          # 'cmp' | 'call' | 'deleg' | 'match' | 'opaque'
@@ -31,6 +31,8 @@ class Gate:
         self.args = args
         self.edge = edge
         self.const_ops = const_ops or []
+        self.truth = None     # which way the condition evaluated on the edge the accept site depends on
+        self.negated = False  # an odd number of `!` between the classified operation and the switch
 
     def all_atoms(self):
         out = set()
@@ -177,7 +179,9 @@ def _classify_value(eng, fd, pl, bi, line, depth):
             return Gate('cmp', rv['op'], [fd.read_op(rv['a']), fd.read_op(rv['b'])], body.path, bi, x.get('line', line),
                         const_ops=consts)
         if rv['k'] == 'unop' and rv['op'] == 'Not' and rv['a']['k'] in ('copy', 'move'):
-            return _classify_value(eng, fd, rv['a']['pl'], bi, line, depth + 1)
+            g = _classify_value(eng, fd, rv['a']['pl'], bi, line, depth + 1)
+            g.negated = not g.negated
+            return g
         if rv['k'] == 'discr':
             return _classify_value(eng, fd, rv['pl'], bi, line, depth + 1)
         if rv['k'] in ('use',) and rv['op']['k'] in ('copy', 'move'):
@@ -223,6 +227,12 @@ def accept_blocks(fd):
                     out.append((bi, 'true', None))
                 elif rv['k'] == 'use' and rv['op']['k'] in ('copy', 'move') and ret_ty == 'bool':
                     out.append((bi, 'boolvar', rv['op']['pl']))
+                elif rv['k'] == 'use' and rv['op']['k'] in ('copy', 'move') and not rv['op']['pl'].get('p'):
+                    d = single_def(fd, rv['op']['pl']['l'])
+                    if d is not None and d[0] == 'call':
+                        cal = d[2].get('callee') or ''
+                        if 'from_residual' not in cal:
+                            out.append((bi, 'tail', d[2]))
                 elif rv['k'] == 'agg' and rv['ak'] == 'adt' and not rv['name'].startswith(('std::result', 'std::option')):
                     out.append((bi, 'value', None))
         t = blk['term']
@@ -245,6 +255,11 @@ class GateAnalysis:
         for (a, s) in sorted(body.control_deps_transitive(bi)):
             g = classify_switch(self.eng, fd, a)
             g.edge = (a, s)
+            t = body.blocks[a]['term']
+            zero_t = [b for v, b in t['targets'] if v == '0']
+            if zero_t and len(t['targets']) == 1 and zero_t[0] != t['otherwise']:
+                raw = (s != zero_t[0])
+                g.truth = (not raw) if g.negated else raw
             gs.append(g)
         return gs
 
@@ -289,7 +304,9 @@ class GateAnalysis:
                             for a in o:
                                 oo |= fd._inst_atom(a, dg.args)
                             ops.append(oo)
-                        lifted.append(Gate(g.kind, g.what, ops, g.fn, g.block, g.line, g.callee, None, g.edge, g.const_ops))
+                        ng = Gate(g.kind, g.what, ops, g.fn, g.block, g.line, g.callee, None, g.edge, g.const_ops)
+                        ng.truth = g.truth
+                        lifted.append(ng)
                     lifted_alts.append(lifted)
                 if not lifted_alts:
                     lifted_alts = [[]]
